@@ -54,7 +54,7 @@ def groups(tier):
     for cls in ('Min', 'Max', 'C'):
         for part in range(4):
             out.append(('seq[%s,%d]' % (cls, part), ('seq', cls, part, tier)))
-    out += [('loop', ('loop',)), ('exact', ('exact',)), ('scale', ('scale', tier))]
+    out += [('loop', ('loop',)), ('exact', ('exact',)), ('scale', ('scale', tier)), ('integer-x', ('intx',))]
     return out
 
 
@@ -194,7 +194,7 @@ def option_grid(kind, tier):
     if kind == 'C':
         g2 = []
         for g in grid:
-            for path, dth in [('radial', None), ('spiral', None), ('spiral', 'sym'), ('spiral', 0)]:
+            for path, dth in [('radial', None), ('spiral', None), ('spiral', 'sym'), ('spiral', 0), ('spiral', -0.3)]:
                 h = dict(g); h['path'] = path
                 if h['step_ratio'] is None:
                     h.pop('step_ratio')        # CStepGenerator has no None default for the ratio (documented default 4.0)
@@ -221,10 +221,25 @@ def realize(opt):
                 hy.append(s.t > 0)
             if k == 'step_ratio':
                 hy.append(s.t > 1)
+            if k == 'dtheta':
+                hy.append(s.t != 0)
             out[k] = s
         else:
             out[k] = v
     return out, hy
+
+
+def _is_plain_option_test(e):
+    """boolean combination of comparisons between option symbols and numerals (no arithmetic): e.g. dtheta != 0"""
+    k = e.decl().kind()
+    if z3.is_bool(e) and k in (z3.Z3_OP_NOT, z3.Z3_OP_AND, z3.Z3_OP_OR):
+        return all(_is_plain_option_test(c) for c in e.children())
+    if k in (z3.Z3_OP_EQ, z3.Z3_OP_DISTINCT, z3.Z3_OP_LE, z3.Z3_OP_LT, z3.Z3_OP_GE, z3.Z3_OP_GT):
+        ch = e.children()
+        atoms = [c for c in ch if z3.is_const(c) and c.decl().kind() == z3.Z3_OP_UNINTERPRETED and c.decl().name().startswith('opt_')]
+        nums = [c for c in ch if z3.is_rational_value(c) or z3.is_int_value(c) or z3.is_algebraic_value(c)]
+        return len(atoms) >= 1 and len(atoms) + len(nums) == len(ch)
+    return False
 
 
 def run_seq(kind, part, tier):
@@ -265,7 +280,10 @@ def run_seq(kind, part, tier):
                 if len(spec) > 6 or (kind == 'C' and (isinstance(o.get('dtheta'), R) or isinstance(o.get('step_ratio'), R))):
                     # long or complex symbolic sequences: assume no generated step is zero (zero-dropping is covered by
                     # the loop group and by the short real-valued sequences); avoids 2^K paths through |step| > 0
-                    forced = lambda cond: True
+                    def forced(cond):
+                        if _is_plain_option_test(cond):
+                            return None          # a comparison of an option with a constant: left to the path driver
+                        return True
                 try:
                     paths = explore(run, pre=hy, max_paths=64, forced=forced)
                 except NeedsConcrete as e:
@@ -393,7 +411,33 @@ def run_scale(tier):
     return {}
 
 
+def run_intx():
+    """integer-typed x (python int, integer ndarray): the generated steps are those of the same x given as floats
+    (object arrays hide dtype truncation, so this is executed on concrete data)"""
+    m = mods(); sg, lm = m['sg'], m['lm']
+    bad = []
+    cnt = 0
+    for cls in (sg.MinStepGenerator, sg.MaxStepGenerator, lm.CStepGenerator):
+        for opt in [dict(), dict(step_nom=1.5), dict(step_nom=0.25, base_step=0.5), dict(step_nom=2.75, num_steps=4), dict(base_step=0.125, step_ratio=3.0)]:
+            for xi in (3, np.array([1, 2, 7]), np.int64(5), np.array([[1, 2], [3, 40]])):
+                xf = np.asarray(xi, dtype=float)
+                cnt += 1
+                try:
+                    if cls is lm.CStepGenerator:
+                        a = list(cls(**opt)(xi)); b = list(cls(**opt)(xf))
+                    else:
+                        a = list(cls(**opt)(xi, 'central', 2, 2)); b = list(cls(**opt)(xf, 'central', 2, 2))
+                except Exception as e:
+                    bad.append((cls.__name__, opt, repr(e)[:60])); continue
+                if len(a) != len(b) or not all(np.array_equal(np.asarray(u, dtype=complex), np.asarray(v, dtype=complex)) for u, v in zip(a, b)):
+                    bad.append((cls.__name__, opt, str(xi)[:20], [np.asarray(u).tolist() for u in a[:2]], [np.asarray(v).tolist() for v in b[:2]]))
+    solve.fact('integer-typed-x-gives-the-same-steps-as-the-same-x-in-floating-point[%d cases]' % cnt, not bad, note=str(bad[:2]))
+    return {}
+
+
 def run_group(args):
+    if args[0] == 'intx':
+        return run_intx()
     if args[0] == 'count':
         return run_count(args[1])
     if args[0] == 'count-hd':
@@ -407,6 +451,10 @@ def replay_case(ob):
     import re
     nm = ob['name']
     mm = re.search(r'seq\[(\w+),(\d+)\]/opt(\d+),(\w+),n=(\d+),order=(\d+),(\w+):', nm)
+    if nm.startswith('integer-x/'):
+        return dict(kind='C10.intx')
+    if mm and mm.group(1) == 'C':
+        return dict(kind='C10.cseq', opt_index=int(mm.group(3)))
     if mm:
         return dict(kind='C10.seq', cls=mm.group(1), opt_index=int(mm.group(3)), method=mm.group(4), n=int(mm.group(5)),
                     order=int(mm.group(6)), tier='quick')
